@@ -41,3 +41,13 @@ def c06_kb_worstcase(case, result):
     if nd >= 2 and err <= sep_bound(ov, nd):
         return "C06/kb-kernel-worstcase-multidim"
     return None
+
+
+@classifier("C15")
+def c15_sdmm_vacuous_stop(case, result):
+    """SDMM built without any constraint (L = [], c_max = c_norm = None): its stop flag is the
+    vacuous 'all constraints satisfied', so done() is true after the first update."""
+    if result.get("mech") == "early-stop:SDMM" and case.get("alg") == "SDMM" \
+            and (result.get("obs") or {}).get("updates") == 1:
+        return "C15/sdmm-unconstrained-vacuous-stop"
+    return None
